@@ -208,6 +208,7 @@ func largeProp(t *testing.T, prop string) {
 					return
 				}
 				beginCase(prop, "large-"+kind, func() any { return x.Case() })
+				defer endCase() // also when rapid abandons the case half-way (fuzzing: input used up)
 				genLargeHistory(t, x)
 				endCase()
 				if msg, bad := x.first(prop); bad {
@@ -277,6 +278,7 @@ func TestC08Large(t *testing.T) {
 				}
 				c.Flags = []int{genFlags(t, histOpts{ntl: 25}), 0}
 				beginCase("C08", "large-"+kind, func() any { return map[string]any{"cfg": cfg, "events": c.R.Events, "len": total} })
+				defer endCase() // also when rapid abandons the case half-way (fuzzing: input used up)
 				msg, bad, x, err := checkWrap("C08", c, true)
 				endCase()
 				if err != nil {
